@@ -398,10 +398,17 @@ func (c *checker) node(n syntax.Node) {
 		}
 		c.textAt("SglQuoted.Right", n.Right, "'")
 		c.textAt("SglQuoted.End()-1", addCol(n.End(), -1), "'")
+		// the quoted text is read from Left exactly up to End() = Right+1 (modulo dropped bytes): Right must
+		// be the quote that closes this Value, not just some quote (found by the Coq twin, PosCheck.v)
+		want := "'" + n.Value + "'"
 		if n.Dollar {
-			c.textAt("SglQuoted.Value", n.Left, "$'"+n.Value+"'")
-		} else {
-			c.textAt("SglQuoted.Value", n.Left, "'"+n.Value+"'")
+			want = "$" + want
+		}
+		c.textAt("SglQuoted.Value", n.Left, want)
+		if lo, hi := int(n.Left.Offset()), int(n.End().Offset()); n.Left.IsValid() && lo <= len(c.src) && hi <= len(c.src) {
+			if _, ok := c.match(lo, want, hi); !ok {
+				c.failf("quote_span_mismatch", "SglQuoted %q from %d does not end at End() %d", trunc(n.Value, 16), lo, hi)
+			}
 		}
 	case *syntax.DblQuoted:
 		if n.Dollar {
